@@ -20,12 +20,12 @@ package multicodec
 
 //@ func (*Registry).LookupEncoder(indicator) (f, err)
 //@   requires r != nil
-//@   assigns nothing
+//@   assigns[C20] nothing
 //@   ensures[C05,C20] indom(r.encoders, indicator) ==> err == nil && f == r.encoders[indicator]
 //@   ensures[C05] !indom(r.encoders, indicator) ==> err != nil && f == nil
 
 //@ func (*Registry).LookupDecoder(indicator) (f, err)
 //@   requires r != nil
-//@   assigns nothing
+//@   assigns[C20] nothing
 //@   ensures[C05,C20] indom(r.decoders, indicator) ==> err == nil && f == r.decoders[indicator]
 //@   ensures[C05] !indom(r.decoders, indicator) ==> err != nil && f == nil
